@@ -133,7 +133,7 @@ func init() {
 	vlib.Register(&vlib.Prop{
 		ID:    "C02",
 		Level: "fault_enumeration",
-		Cases: func(tier string) int { return matrixCases() + vlib.TierN(tier, 2000, 50000) },
+		Cases: func(tier string) int { return matrixCases() + vlib.TierN(tier, 2000, 500000) },
 		Rule: fmt.Sprintf("matrix part: %d cells = {%d handler behaviours: returns nil/empty/1/3 messages, error, error+1/3 messages, panic(string|error|nil), "+
 			"context.Canceled (bare/wrapped), Ack-then-{ok,ok+msg,err,err+msg,panic}, Nack-then-{ok,ok+1/3 msgs,err,err+msg,panic}, Ack-then-Nack} x {publisher: accept,error,panic(string),panic(nil)} x "+
 			"{AddHandler+publisher, AddNoPublisherHandler, AddHandler+nil publisher} x {%d middleware prefixes: none, pass-through (router/handler level), output-adding "+
